@@ -253,6 +253,89 @@ h_dround_mon(void)
 	WITNESS();
 }
 
+/* (4d) rounding an ISO week date to a week number that every year has */
+void
+h_dround_week(void)
+{
+	ND_DAY(r);
+	ND(u8, vtgt);
+	ND(u8, vdown);
+	ND(u8, vnext);
+	struct dt_d_s x = mk_rep(R_YWD, r);
+	struct dt_d_s y;
+	struct dt_ddur_s dur;
+	int ey;
+
+	/* week 53 does not exist in every year; the statement names no replacement for it: outside */
+	ASSUME(vtgt >= 1 && vtgt <= 52 && vdown <= 1 && vnext <= 1);
+	ASSUME(r.iy > REF_MIN_YEAR && r.iy < REF_MAX_YEAR);
+	dur = dt_make_ddur(DT_DURWK, vdown ? -(int)vtgt : (int)vtgt);
+	y = dround_ddur(x, dur, vnext);
+	CHECK(y.typ == DT_YWD, "still an ISO week date");
+	CHECK((int)y.ywd.c == vtgt, "week number equals the target");
+	CHECK((int)y.ywd.w == r.wd, "weekday kept");
+	if (!vdown) {
+		ey = (vtgt > r.iw || (vtgt == r.iw && !vnext)) ? r.iy : r.iy + 1;
+	} else {
+		ey = (vtgt < r.iw || (vtgt == r.iw && !vnext)) ? r.iy : r.iy - 1;
+	}
+	CHECK((int)y.ywd.y == ey, "nearest such week on the requested side");
+	WITNESS();
+}
+
+/* (4e) rounding a business-day-of-month date to a business-day index that
+ * every month has (every month has at least 20 Monday-to-Friday days) */
+static inline int
+c16_B(int t)
+{
+	int r = t % 7;
+	return 5 * (t / 7) + (r > 5 ? 5 : r);
+}
+
+void
+h_dround_bday(void)
+{
+	ND(i32, vy);
+	ND(i32, vm);
+	ND(i32, vb);
+	ND(u8, vtgt);
+	ND(u8, vdown);
+	ND(u8, vnext);
+	struct dt_d_s x, y;
+	struct dt_ddur_s dur;
+	int first, last, nb, ey, em;
+
+	ASSUME(vy >= YLO && vy <= YHI && vm >= 1 && vm <= 12);
+	ASSUME(vy > REF_MIN_YEAR && vy < REF_MAX_YEAR);
+	first = ref_days(vy, vm, 1);
+	last = ref_days(vy, vm, ref_mdays(vy, vm));
+	nb = c16_B(last) - c16_B(first - 1);
+	ASSUME(vb >= 1 && vb <= nb);
+	/* indices above 20 do not exist in every month; the statement names no replacement: outside */
+	ASSUME(vtgt >= 1 && vtgt <= 20 && vdown <= 1 && vnext <= 1);
+	memset(&x, 0, sizeof(x));
+	x.typ = DT_BIZDA;
+	x.bizda.y = vy, x.bizda.m = vm, x.bizda.bd = vb;
+	dur = dt_make_ddur(DT_DURBD, vdown ? -(int)vtgt : (int)vtgt);
+	y = dround_ddur(x, dur, vnext);
+	CHECK(y.typ == DT_BIZDA, "still a business-day date");
+	CHECK((int)y.bizda.bd == vtgt, "business-day index equals the target");
+	ey = vy, em = vm;
+	if (!vdown) {
+		if (!(vtgt > vb || (vtgt == vb && !vnext))) {
+			em = vm < 12 ? vm + 1 : 1;
+			ey = vm < 12 ? vy : vy + 1;
+		}
+	} else {
+		if (!(vtgt < vb || (vtgt == vb && !vnext))) {
+			em = vm > 1 ? vm - 1 : 12;
+			ey = vm > 1 ? vy : vy - 1;
+		}
+	}
+	CHECK((int)y.bizda.y == ey && (int)y.bizda.m == em, "nearest such business day on the requested side");
+	WITNESS();
+}
+
 /* (5) idempotence through dt_round: rounding twice equals rounding once */
 void
 h_idem(void)
